@@ -477,6 +477,19 @@ pub fn gen_c05(rng: &mut Rng) -> Value {
         wcfg: WriteCfg { by_hash_pct: 0, rich_opts: true, declare_size_pct: 20, algos: false, ends: false },
     };
     let mut sc = gen_history(rng, &m);
+    // rarely: one key with a very long history (a bucket of 70+ records)
+    if rng.chance(1, 60) {
+        let steps = sc["steps"].as_array_mut().unwrap();
+        let f = flav(rng);
+        let mut pre = Vec::new();
+        for i in 0..rng.range(66, 80) {
+            pre.push(json!({"k":"api","op":"write","entry":"opts","key":0,"val":(i % 2),"opts":{"time":i.to_string()},"bin":f.0,"mode":f.1}));
+        }
+        pre.push(json!({"k":"audit","bin":"sync","mode":"sync","what":["metadata","read"]}));
+        let tail: Vec<Value> = steps.drain(..).collect();
+        steps.extend(pre);
+        steps.extend(tail);
+    }
     // foreign-key records placed in a key's bucket file by the environment (valid records, another key)
     if rng.chance(1, 3) {
         let nk = sc["keys"].as_array().map(|a| a.len()).unwrap_or(1);
